@@ -16,7 +16,7 @@ EXTRA = {
 }
 PREFIX_PROP = {"d8b687c": ["C06"], "da7613f": ["C16"], "64a92d9": ["C02"], "2c87331": ["C13", "C02", "C12"], "06fc22c": ["C05", "C11"],
                "85dc330": ["C05", "C11"], "4c427cc": ["C13"], "a8065bf": ["C13"], "a4e97cf": ["C11"], "2aa0389": ["C04"],
-               "9db7846": ["C17"], "23f20cf": ["C17"], "b18464c": ["C07"], "d06cb78": ["C10"]}
+               "9db7846": ["C17"], "23f20cf": ["C17"], "b18464c": ["C07"], "d06cb78": ["C10"], "796c1d9": ["C01", "C11"]}
 
 
 CURRENT = {}
